@@ -124,9 +124,27 @@ fn same(a: &ScalarValue, b: &ScalarValue) -> bool {
     if a == b {
         return true;
     }
-    // NaN payload / sign differences are not observable values
+    // +0.0 / -0.0 are the same value; so are NaNs of any payload / sign
+    let num = |v: &ScalarValue| match v {
+        ScalarValue::Float64(Some(x)) => Some(*x),
+        ScalarValue::Float32(Some(x)) => Some(*x as f64),
+        ScalarValue::Float16(Some(x)) => Some(x.to_f64()),
+        _ => None,
+    };
+    if let (Some(x), Some(y)) = (num(a), num(b)) {
+        return x == y || (x.is_nan() && y.is_nan());
+    }
     let (x, y) = (format!("{a:?}"), format!("{b:?}"));
     x == y && x.contains("NaN")
+}
+
+/// Decimal rendered without trailing zeros (values of different scales compare equal when numerically equal).
+fn norm_decimal(s: &str) -> String {
+    if s.contains('.') { s.trim_end_matches('0').trim_end_matches('.').to_string() } else { s.to_string() }
+}
+
+fn is_decimal(t: &DataType) -> bool {
+    matches!(t, DataType::Decimal32(..) | DataType::Decimal64(..) | DataType::Decimal128(..) | DataType::Decimal256(..))
 }
 
 fn show(v: &ScalarValue) -> String {
@@ -143,6 +161,10 @@ struct Chunk {
     args: Vec<ColumnarValue>,
     /// must this chunk succeed (all its rows succeed in `base`, same logical types)?
     must: bool,
+    /// arguments passed as constants.  A failure is legitimate (eager validation of a constant) when some grid
+    /// row that agrees with the chunk's row on every non-NULL constant fails in `base`: the rows that succeed
+    /// with these constants do so only because a NULL elsewhere short-circuits the evaluation.
+    constants: Vec<usize>,
     /// for type-changing variants (flavours, dictionaries): the argument types of the variant.  A failure
     /// of the batch is a violation only if every row evaluates successfully on its own *in these types*.
     variant_types: Option<Vec<DataType>>,
@@ -156,6 +178,7 @@ struct Grid<'a> {
     rows: Vec<Vec<usize>>,
     reference: Vec<Option<ScalarValue>>,
     base_ok: Vec<bool>,
+    base_done: bool,
     ref_type: Option<DataType>,
     findings: Vec<Finding>,
     stats: Stats,
@@ -171,6 +194,14 @@ impl<'a> Grid<'a> {
         let rt = self.ref_type.get_or_insert_with(|| arr.data_type().clone()).clone();
         let a: ArrayRef = if arr.data_type() == &rt {
             arr.clone()
+        } else if is_decimal(arr.data_type()) && is_decimal(&rt) {
+            // the declared scale may depend on a constant argument (round(x, 0)): compare numerically
+            let mut out = vec![];
+            for i in 0..arr.len() {
+                let s = if arr.is_null(i) { None } else { Some(arrow::util::display::array_value_to_string(arr, i).map_err(|e| e.to_string())?) };
+                out.push(ScalarValue::Utf8(s.map(|x| format!("\u{1}rendered:{}", norm_decimal(&x)))));
+            }
+            return Ok(out);
         } else if can_cast_types(arr.data_type(), &rt) {
             let opts = CastOptions { safe: false, ..Default::default() };
             match mc_core::catch(|| cast_with_options(arr, &rt, &opts)) {
@@ -192,11 +223,22 @@ impl<'a> Grid<'a> {
 
     fn reference_for(&self, row: usize, v: &ScalarValue) -> Option<ScalarValue> {
         let r = self.reference[row].as_ref()?;
+        if matches!(v, ScalarValue::Utf8(None)) && r.is_null() && !matches!(r, ScalarValue::Utf8(_)) {
+            // NULL in rendered mode (see `values`)
+            return Some(ScalarValue::Utf8(None));
+        }
         if let ScalarValue::Utf8(Some(s)) = v {
+            if let ScalarValue::Utf8(Some(rs)) = r {
+                if rs.starts_with("\u{1}rendered:") {
+                    // the reference itself was taken from a rendered result
+                    return Some(r.clone());
+                }
+            }
             if s.starts_with("\u{1}rendered:") {
                 // render the reference the same way
                 let arr = r.to_array().ok()?;
-                let s = if arr.is_null(0) { None } else { arrow::util::display::array_value_to_string(&arr, 0).ok().map(|x| format!("\u{1}rendered:{x}")) };
+                let dec = is_decimal(arr.data_type());
+                let s = if arr.is_null(0) { None } else { arrow::util::display::array_value_to_string(&arr, 0).ok().map(|x| format!("\u{1}rendered:{}", if dec { norm_decimal(&x) } else { x })) };
                 return Some(ScalarValue::Utf8(s));
             }
         }
@@ -242,7 +284,18 @@ impl<'a> Grid<'a> {
                 self.push(rep, sym, row, txt);
             }
             Out::Fail(e) => {
+                let poisoned = !ch.constants.is_empty()
+                    && ch.rows.first().is_some_and(|r0| {
+                        let r0 = &self.rows[*r0];
+                        (0..self.rows.len()).any(|r| {
+                            !self.base_ok[r] && self.base_done && ch.constants.iter().all(|a| self.rows[r][*a] == r0[*a] || self.plan.menus[*a].is_null(r0[*a]))
+                        })
+                    });
+                if poisoned {
+                    self.stats.add("constant_rejected_eagerly_allowed", 1);
+                }
                 let must = ch.must
+                    && !poisoned
                     && match &ch.variant_types {
                         None => true,
                         Some(t) => {
@@ -372,6 +425,7 @@ fn run_grid(udf: &ScalarUDF, plan: &Plan, vary: (usize, usize), opts: &Opts) -> 
         rows,
         reference: vec![None; nrows],
         base_ok: vec![false; nrows],
+        base_done: false,
         ref_type: None,
         findings: vec![],
         stats: Stats::default(),
@@ -381,9 +435,10 @@ fn run_grid(udf: &ScalarUDF, plan: &Plan, vary: (usize, usize), opts: &Opts) -> 
     // ---- base: one 1-row batch per row, plain arrays (always evaluated: it is the reference)
     for r in 0..nrows {
         let args: Vec<ColumnarValue> = (0..nargs).map(|a| ColumnarValue::Array(g.col(a, &[r]))).collect();
-        g.eval_chunk("base", Chunk { rows: vec![r], args, must: false, variant_types: None }, 1, true);
+        g.eval_chunk("base", Chunk { rows: vec![r], args, must: false, variant_types: None, constants: vec![] }, 1, true);
         g.base_ok[r] = g.reference[r].is_some();
     }
+    g.base_done = true;
     let good: Vec<usize> = (0..nrows).filter(|r| g.base_ok[*r]).collect();
     g.stats.add("rows", nrows as u64);
     g.stats.add("rows_ok_in_base", good.len() as u64);
@@ -396,7 +451,7 @@ fn run_grid(udf: &ScalarUDF, plan: &Plan, vary: (usize, usize), opts: &Opts) -> 
         for r in 0..nrows {
             let Some(args) = (0..nargs).map(|a| g.scalar(a, g.rows[r][a]).map(ColumnarValue::Scalar)).collect::<Option<Vec<_>>>() else { continue };
             let must = g.base_ok[r];
-            g.eval_chunk(name, Chunk { rows: vec![r; n], args, must, variant_types: None }, n, name == "const");
+            g.eval_chunk(name, Chunk { rows: vec![r; n], args, must, variant_types: None, constants: (0..nargs).collect() }, n, name == "const");
         }
     }
     let with_ref: Vec<usize> = (0..nrows).filter(|r| g.reference[*r].is_some()).collect();
@@ -408,12 +463,12 @@ fn run_grid(udf: &ScalarUDF, plan: &Plan, vary: (usize, usize), opts: &Opts) -> 
         // ---- batch
         if want("batch") {
             let args = cols.iter().cloned().map(ColumnarValue::Array).collect();
-            g.eval_chunk("batch", Chunk { rows: good.clone(), args, must: true, variant_types: None }, n, false);
+            g.eval_chunk("batch", Chunk { rows: good.clone(), args, must: true, variant_types: None, constants: vec![] }, n, false);
         }
         if want("batch-full") && good.len() < nrows {
             let all: Vec<usize> = (0..nrows).collect();
             let args = (0..nargs).map(|a| ColumnarValue::Array(g.col(a, &all))).collect();
-            g.eval_chunk("batch-full", Chunk { rows: all, args, must: false, variant_types: None }, nrows, false);
+            g.eval_chunk("batch-full", Chunk { rows: all, args, must: false, variant_types: None, constants: vec![] }, nrows, false);
         }
         // ---- sliced at offset 1: a poison / garbage row before and after
         if want("sliced") {
@@ -428,7 +483,7 @@ fn run_grid(udf: &ScalarUDF, plan: &Plan, vary: (usize, usize), opts: &Opts) -> 
                     ColumnarValue::Array(long.slice(1, n))
                 })
                 .collect();
-            g.eval_chunk("sliced", Chunk { rows: good.clone(), args, must: true, variant_types: None }, n, false);
+            g.eval_chunk("sliced", Chunk { rows: good.clone(), args, must: true, variant_types: None, constants: vec![] }, n, false);
         }
         // ---- split in two
         let mut cuts: Vec<usize> = if opts.all_splits { (1..n).collect() } else { vec![1, n / 2] };
@@ -446,7 +501,7 @@ fn run_grid(udf: &ScalarUDF, plan: &Plan, vary: (usize, usize), opts: &Opts) -> 
             }
             for (lo, len) in [(0, k), (k, n - k)] {
                 let args = cols.iter().map(|c| ColumnarValue::Array(c.slice(lo, len))).collect();
-                g.eval_chunk(&name, Chunk { rows: good[lo..lo + len].to_vec(), args, must: true, variant_types: None }, len, false);
+                g.eval_chunk(&name, Chunk { rows: good[lo..lo + len].to_vec(), args, must: true, variant_types: None, constants: vec![] }, len, false);
             }
         }
         // ---- flavours
@@ -494,7 +549,7 @@ fn run_grid(udf: &ScalarUDF, plan: &Plan, vary: (usize, usize), opts: &Opts) -> 
                 continue;
             };
             let args = arrs.into_iter().map(ColumnarValue::Array).collect();
-            g.eval_chunk(&name, Chunk { rows: good.clone(), args, must: true, variant_types: Some(co.clone()) }, n, false);
+            g.eval_chunk(&name, Chunk { rows: good.clone(), args, must: true, variant_types: Some(co.clone()), constants: vec![] }, n, false);
         }
         // ---- dictionary
         for k in 0..nargs {
@@ -525,7 +580,7 @@ fn run_grid(udf: &ScalarUDF, plan: &Plan, vary: (usize, usize), opts: &Opts) -> 
                     let mut arrs = others.clone();
                     arrs[k] = d;
                     let args = arrs.into_iter().map(ColumnarValue::Array).collect();
-                    g.eval_chunk(&dense, Chunk { rows: good.clone(), args, must: true, variant_types: Some(co.clone()) }, n, false);
+                    g.eval_chunk(&dense, Chunk { rows: good.clone(), args, must: true, variant_types: Some(co.clone()), constants: vec![] }, n, false);
                 }
             }
             // sparse: the whole menu as dictionary values (entries no row uses, in menu order), NULL rows = NULL keys;
@@ -551,7 +606,7 @@ fn run_grid(udf: &ScalarUDF, plan: &Plan, vary: (usize, usize), opts: &Opts) -> 
                         let mut arrs = others.clone();
                         arrs[k] = d;
                         let args = arrs.into_iter().map(ColumnarValue::Array).collect();
-                        g.eval_chunk(name, Chunk { rows: good.clone(), args, must: true, variant_types: Some(co.clone()) }, n, false);
+                        g.eval_chunk(name, Chunk { rows: good.clone(), args, must: true, variant_types: Some(co.clone()), constants: vec![] }, n, false);
                     }
                 }
             }
@@ -578,7 +633,7 @@ fn run_grid(udf: &ScalarUDF, plan: &Plan, vary: (usize, usize), opts: &Opts) -> 
                 };
                 let must = rs.iter().all(|r| g.base_ok[*r]);
                 let n = rs.len();
-                g.eval_chunk(&name, Chunk { rows: rs, args, must, variant_types: None }, n, false);
+                g.eval_chunk(&name, Chunk { rows: rs, args, must, variant_types: None, constants: (0..nargs).filter(|x| *x != o).collect() }, n, false);
             }
         }
         if nargs > 2 && want("scalar:fixed") {
@@ -590,7 +645,7 @@ fn run_grid(udf: &ScalarUDF, plan: &Plan, vary: (usize, usize), opts: &Opts) -> 
             };
             let must = with_ref.iter().all(|r| g.base_ok[*r]);
             let n = with_ref.len();
-            g.eval_chunk("scalar:fixed", Chunk { rows: with_ref.clone(), args, must, variant_types: None }, n, false);
+            g.eval_chunk("scalar:fixed", Chunk { rows: with_ref.clone(), args, must, variant_types: None, constants: (0..nargs).filter(|x| *x != vi && *x != vj).collect() }, n, false);
         }
     }
 
@@ -894,6 +949,7 @@ fn explore(ctx: &Ctx) {
         })
         .collect();
     let mut unfinished = 0u64;
+    let mut roots: BTreeMap<String, Vec<String>> = BTreeMap::new();
     for o in outs {
         if o.evaluated == 0 {
             unfinished += 1;
@@ -913,10 +969,20 @@ fn explore(ctx: &Ctx) {
             }
         }
         for (key, what, case) in o.violations {
-            ctx.violation(key, what, serde_json::to_value(&case).unwrap());
+            // one reported case per (function, representation class, symptom): the first (simplest) type list;
+            // further type lists showing the same symptom are listed in the evidence only
+            let parts: Vec<&str> = key.split('|').collect();
+            let root = format!("{}|{}|{}", parts.first().unwrap_or(&""), parts.get(parts.len().saturating_sub(2)).unwrap_or(&""), parts.last().unwrap_or(&""));
+            let n = roots.entry(root).or_insert_with(Vec::new);
+            n.push(key.clone());
+            if n.len() == 1 {
+                ctx.violation(key, what, serde_json::to_value(&case).unwrap());
+            }
         }
     }
+    ctx.set_extra("findings_by_root", json!(roots));
     ctx.count("tasks_not_evaluated", unfinished);
+    ctx.count("oversized_allocations_refused", engine::REFUSED_ALLOCATIONS.load(std::sync::atomic::Ordering::Relaxed));
 }
 
 fn replay(v: &Value) -> Result<(), String> {
